@@ -933,7 +933,10 @@ def rebind_sweep_cases(rng, per_len, quirks):
         at = i + n if -n <= i < 0 else i
         e = elems[at] if 0 <= at < n else None
         r = rng.random()
-        if isinstance(e, dict) and r < 0.4:
+        if isinstance(e, dict) and (r < 0.4 or layout == 'dict-target'):
+          # (through a dict target the batch is applied in the given order; the shared driver orders the values a batch detaches by
+          #  the positions its paths address BEFORE the call, which an earlier insertion of the same batch can shift: there the
+          #  stored dicts are only written into, never replaced)
           path, v = [i, 'x'], (D.V('MISSING') if rng.random() < 0.2 else D.V(50 + j))
         elif r < 0.55: path, v = [i], D.INS(D.V(100 + j) if rng.random() < 0.7 else D.V({'x': 100 + j}))
         elif r < 0.7: path, v = [i], D.V('MISSING')
